@@ -196,6 +196,15 @@ def ob_demarcators(timeout):
             return "intersection with demarcator '+'"
         if tuples(ml.entries) != ([(a0, a1, "x(p)")] if ov else []):
             return "mergeLabels with demarcator ';'"
+        # labels are data, not templates
+        tc = IntervalTier("C", [Interval(b0, b1, "{p}")], 0.0, hi)
+        td = IntervalTier("D", [Interval(a0, a1, "{0}%s{{")], 0.0, hi)
+        if tuples(ta.intersection(tc).entries) != ([(lo, up, "x-{p}")] if ov else []):
+            return "intersection with braces in B's label"
+        if tuples(td.intersection(tc).entries) != ([(lo, up, "{0}%s{{-{p}")] if ov else []):
+            return "intersection with braces/percent in both labels"
+        if tuples(td.mergeLabels(tc).entries) != ([(a0, a1, "{0}%s{{({p})")] if ov else []):
+            return "mergeLabels with braces/percent in the labels"
         tb2 = IntervalTier("B", [Interval(b0, b1, "p"), Interval(hi, hi + 1.0, "q")], 0.0, hi + 1.0)
         ta2 = IntervalTier("A", [Interval(a0, hi + 1.0, "x")], 0.0, hi + 1.0) if a0 < b0 else None
         if ta2 is not None:
@@ -207,6 +216,33 @@ def ob_demarcators(timeout):
         return True
 
     return Ob("demarcators-1x1", F(*names), body, pre, fmode="real", timeout=timeout, funcs=FUNCS[2:4], bounds="1x1 (and 1x2 for mergeLabels) intervals, demarcators '+' and ';'")
+
+
+def ob_diff_spans(ka, timeout):
+    """operands whose spans differ: A reaches beyond B's span (and vice versa)"""
+    tsn = [n for i in range(ka) for n in ("a%d" % (2 * i), "a%d" % (2 * i + 1))]
+    names = ["ha", "hb", "b0", "b1"] + tsn
+
+    def pre(ha, hb, b0, b1, *ts):
+        return ivs_wf_pre(0.0, ha, *ts) & ivs_wf_pre(0.0, hb, b0, b1) & within(0.0, 1024.0, ha, hb) & sep(0.0, ha, hb, b0, b1, *ts)
+
+    def body(ha, hb, b0, b1, *ts):
+        ea = [(ts[2 * i], ts[2 * i + 1], LABELS[i]) for i in range(ka)]
+        eb = [(b0, b1, "p")]
+        ta = IntervalTier("A", [Interval(*e) for e in ea], 0.0, ha)
+        tb = IntervalTier("B", [Interval(*e) for e in eb], 0.0, hb)
+        gd = tuples(ta.difference(tb).entries)
+        gi = tuples(ta.intersection(tb).entries)
+        top = ha if ha > hb else hb
+        for c0, c1 in R.cells(0.0, top, b0, b1, ha, hb, *ts):
+            a, b = R.labelled(ea, c0, c1), R.labelled(eb, c0, c1)
+            if R.labelled(gd, c0, c1) != (a and not b):
+                return "difference: labelled time (operands with different spans)"
+            if R.labelled(gi, c0, c1) != (a and b):
+                return "intersection: labelled time (operands with different spans)"
+        return True
+
+    return Ob("diff-inter-spans-%dx1" % ka, F(*names), body, pre, fmode="real", timeout=timeout, funcs=FUNCS[1:3], bounds="A %d interval(s) in [0,ha], B 1 interval in [0,hb], ha and hb independent" % ka)
 
 
 def ob_inter_ieee(timeout):
@@ -277,6 +313,7 @@ def obligations(tier):
         obs.append(ob_point_union_spans(300))
         obs.append(ob_inter_ieee(300))
         obs.append(ob_demarcators(200))
+        obs.append(ob_diff_spans(1, 300))
         obs.append(ob_union(0, 1, 30))
         obs.append(ob_diff_inter(1, 0, 30))
     else:
@@ -290,4 +327,6 @@ def obligations(tier):
         obs.append(ob_point_union_spans(1800))
         obs.append(ob_inter_ieee(1800))
         obs.append(ob_demarcators(600))
+        obs.append(ob_diff_spans(1, 900))
+        obs.append(ob_diff_spans(2, 2400))
     return obs
